@@ -262,12 +262,14 @@ impl CommitPipeline {
 			return Ok(());
 		}
 
+		verif_yield!("commit.start");
 		// Check write stall BEFORE acquiring any locks.
 		// This ensures stalled writers wait here without blocking others.
 		self.write_stall.check().await?;
 
 		// Acquire permit for flow control
 		let _permit = self.commit_sem.acquire().await.map_err(|_| Error::PipelineStall)?;
+		verif_yield!("commit.have_permit");
 
 		let (commit_batch, complete_rx) = CommitBatch::new(batch.count());
 
@@ -344,6 +346,7 @@ impl CommitPipeline {
 					commit_batch.mark_applied();
 					// Release write_mutex before draining the queue.
 					drop(_guard);
+					verif_yield!("commit.wal_failed");
 					self.publish();
 					return Err(e);
 				}
@@ -351,10 +354,12 @@ impl CommitPipeline {
 		};
 		// === END CRITICAL SECTION ===
 
+		verif_yield!("commit.after_critical");
 		// Memtable apply — OUTSIDE write_mutex. The next committer can already
 		// be inside the critical section. This restores the pipeline overlap
 		// that PR #378 destroyed.
 		let apply_result = self.env.apply(&processed_batch);
+		verif_yield!("commit.after_apply");
 
 		// =========================================================================
 		// Failure-path invariants
@@ -394,12 +399,15 @@ impl CommitPipeline {
 		commit_batch.mark_applied();
 
 		// Publish (multi-consumer) - MUST always run to drain queue
+		verif_yield!("commit.after_mark");
 		self.publish();
 
+		verif_yield!("commit.after_publish");
 		if let Some(err) = apply_err {
 			return Err(err);
 		}
 
+		verif_yield!("commit.before_wait");
 		complete_rx.await.map_err(|_| Error::PipelineStall)?
 	}
 
@@ -415,6 +423,7 @@ impl CommitPipeline {
 
 			match dequeued {
 				Some(batch) => {
+					verif_yield!("publish.dequeued");
 					// Publish this batch's sequence number
 					let new_visible = batch.get_seq_num() + batch.count as u64 - 1;
 
@@ -439,6 +448,7 @@ impl CommitPipeline {
 						}
 					}
 
+					verif_yield!("publish.visible_set");
 					// Complete this batch
 					batch.complete(Ok(()));
 				}
